@@ -13,6 +13,10 @@ PoolLet == <<
   \* {"a": {"a": "2"}, "b": {"a": "1", "b": "2"}}
   Obj(<<Mem(<<97>>, Obj(<<Mem(<<97>>, JInt(2))>>)), Mem(<<98>>, Obj(<<Mem(<<97>>, JInt(1)), Mem(<<98>>, JInt(2))>>))>>),
   \* {"a": "2", "b": [["2", "1"], ["1"], "2"]}
-  Obj(<<Mem(<<97>>, JInt(2)), Mem(<<98>>, Arr(<<Arr(<<JInt(2), JInt(1)>>), Arr(<<JInt(1)>>), JInt(2)>>))>>)
+  Obj(<<Mem(<<97>>, JInt(2)), Mem(<<98>>, Arr(<<Arr(<<JInt(2), JInt(1)>>), Arr(<<JInt(1)>>), JInt(2)>>))>>),
+  \* {"a": "0", "b": [[["1"], ["2", "3"]], [["4"]], [], [["5", "6"], ["7"], ["8", "9"]]]}
+  Obj(<<Mem(<<97>>, JInt(0)), Mem(<<98>>, Arr(<<Arr(<<Arr(<<JInt(1)>>), Arr(<<JInt(2), JInt(3)>>)>>), Arr(<<Arr(<<JInt(4)>>)>>), Arr(<<>>), Arr(<<Arr(<<JInt(5), JInt(6)>>), Arr(<<JInt(7)>>), Arr(<<JInt(8), JInt(9)>>)>>)>>))>>),
+  \* {"a": "q", "b": [{"a": ["2"], "c": "1"}, {"a": [["3"], "4"]}, [["1"]], "s", null, []]}
+  Obj(<<Mem(<<97>>, Str(<<113>>)), Mem(<<98>>, Arr(<<Obj(<<Mem(<<97>>, Arr(<<JInt(2)>>)), Mem(<<99>>, JInt(1))>>), Obj(<<Mem(<<97>>, Arr(<<Arr(<<JInt(3)>>), JInt(4)>>))>>), Arr(<<Arr(<<JInt(1)>>)>>), Str(<<115>>), Null, Arr(<<>>)>>))>>)
 >>
 ====
